@@ -111,6 +111,69 @@ def cases(ctx):
                 yield ("mut", ci, enc, pos)
 
 
+def sec1_point(cv, size, data):
+    """Reference reading of a SEC 1 point string in any of the forms VerifyingKey.from_string detects: the affine point, or None if
+    the bytes are no valid encoding (used to tell a truncated string that is accepted WRONGLY from one that happens to be a
+    complete, valid encoding of another point - e.g. the first 1+size bytes of a raw X||Y when X begins with 02 or 03)."""
+    p = cv.p
+
+    def lift(x, want_odd):
+        if x >= p:
+            return None
+        rhs = (x * x * x + cv.a * x + cv.b) % p
+        if p % 4 == 3:
+            y = pow(rhs, (p + 1) // 4, p)
+        else:
+            y = next((c for c in _sqrt_candidates(rhs, p)), None)
+            if y is None:
+                return None
+        if y * y % p != rhs:
+            return None
+        if (y & 1) != want_odd:
+            y = (p - y) % p
+        return (x, y)
+    if len(data) == 2 * size:
+        P = (int.from_bytes(data[:size], "big"), int.from_bytes(data[size:], "big"))
+    elif len(data) == 2 * size + 1 and data[0] in (4, 6, 7):
+        P = (int.from_bytes(data[1:1 + size], "big"), int.from_bytes(data[1 + size:], "big"))
+        if data[0] in (6, 7) and (P[1] & 1) != (data[0] & 1):
+            return None
+    elif len(data) == size + 1 and data[0] in (2, 3):
+        P = lift(int.from_bytes(data[1:], "big"), data[0] & 1)
+        if P is None:
+            return None
+    else:
+        return None
+    if P[0] >= p or P[1] >= p or not cv.on_curve(P):
+        return None
+    return P
+
+
+def _sqrt_candidates(a, p):
+    """Tonelli-Shanks (only needed for primes that are 1 mod 4)"""
+    if a == 0:
+        yield 0
+        return
+    if pow(a, (p - 1) // 2, p) != 1:
+        return
+    q, s_ = p - 1, 0
+    while q % 2 == 0:
+        q //= 2
+        s_ += 1
+    z = 2
+    while pow(z, (p - 1) // 2, p) != p - 1:
+        z += 1
+    m, c, t, r = s_, pow(z, q, p), pow(a, q, p), pow(a, (q + 1) // 2, p)
+    while t != 1:
+        i, t2 = 0, t
+        while t2 != 1:
+            t2 = t2 * t2 % p
+            i += 1
+        b = pow(c, 1 << (m - i - 1), p)
+        m, c, t, r = i, b * b % p, t * b * b % p, r * b % p
+    yield r
+
+
 def decode(kind, data, cur):
     if kind == "priv":
         return SigningKey.from_der(data)
@@ -320,7 +383,16 @@ def run_case(ctx, case):
                 pass
             n += 1
             try:
-                decode(dk, bad, cur)
+                got = decode(dk, bad, cur)
+                if dk == "str":
+                    # the bytes may by chance be a complete valid encoding in another form (49 of 96 raw bytes beginning with 02):
+                    # then acceptance is right, provided the point read is the one those bytes encode
+                    P = sec1_point(ref_curve(cur), cur.verifying_key_length // 2, bad)
+                    if P is not None:
+                        if (int(got.pubkey.point.x()), int(got.pubkey.point.y())) != P:
+                            o.viol("prefix|other-form-misread", "%s %s: %s is a valid encoding in another form but was read as another point" % (cur.name, enc, what))
+                            break
+                        continue
                 o.cls = "accepted-truncated"
                 o.viol("prefix|accepted|%s" % enc.split(":")[0], "%s %s: %s of the valid encoding was accepted" % (cur.name, enc, what))
                 break
